@@ -16,6 +16,23 @@ from collections import Counter
 from entity_query_language import predicate
 
 
+from entity_query_language import Predicate as _Predicate
+from typing import Any as _Any
+
+
+@dataclasses.dataclass(eq=False)
+class Picky(_Predicate):
+    """a predicate whose construction validates its argument and refuses n == 5"""
+    x: _Any
+
+    def __post_init__(self):
+        if getattr(self.x, "n", None) == 5:
+            raise ValueError("n == 5 is not acceptable")
+
+    def __call__(self):
+        return True
+
+
 @predicate
 def same_object(x):
     """a user predicate whose (truthy) result is an existing registered instance, not a bool"""
@@ -26,7 +43,7 @@ LEVEL = "exploration"
 RULE = ("random hierarchies of 2-5 classes (root decorated; children dataclass or hand-written __init__, decorated or not, "
         "arbitrary parent) and histories of 6-16 operations {new (positional|keyword|defaults), symbolic construction, "
         "rule inference into an unrelated decorated family, clear, query let(T), start a result iterator inside or outside a "
-        "block and resume it right before later constructions, evaluate a query whose @predicate returns the (registered) object itself, leave a registry query after its first result (close / drop / break), raise from an evaluation inside a symbolic block (handled inside it / leaving it)}; every query result is compared with the "
+        "block and resume it right before later constructions, evaluate a query whose @predicate returns the (registered) object itself, leave a registry query after its first result (close / drop / break), raise from an evaluation inside a symbolic block (handled inside it / leaving it), define and instantiate a new subclass after its ancestors were queried, evaluate a query whose Predicate construction raises for one binding, switch result caching off and on}; every query result is compared with the "
         "construction log. Non-trivial: a query is asked for a class that has a subclass instance or an inferred "
         "instance in the log and at least one logged instance that must NOT be returned (other branch / cleared). "
         "distinct by structural hash.")
@@ -47,7 +64,7 @@ def plan(tier, seed):
 def floors(tier):
     return {"distinct_nontrivial": 300, "op:new": 3000, "op:sym": 1000, "op:rule": 500, "op:clear": 300, "op:query": 3000,
             "cls:undecorated_subclass": 500, "cls:hand_written": 500, "cls:query_after_clear": 200,
-            "cls:inferred_instances_queried": 60, "op:predq": 300, "re:cls:no_domain_spelling:.*name.*": 500, "re:cls:no_domain_spelling:T\\(\\)": 500, "op:abandon": 300, "op:exc": 200, "cls:live_iterator_started_in": 100, "cls:live_iterator_started_out": 100, "queries_with_subclass_instances": 300}
+            "cls:inferred_instances_queried": 60, "op:predq": 300, "re:cls:no_domain_spelling:.*name.*": 500, "re:cls:no_domain_spelling:T\\(\\)": 500, "op:abandon": 300, "op:exc": 200, "op:newclass": 150, "op:pred_raises": 100, "op:toggle_caching": 100, "cls:live_iterator_started_in": 100, "cls:live_iterator_started_out": 100, "queries_with_subclass_instances": 300}
 
 
 def gen_case(rng):
@@ -79,6 +96,12 @@ def gen_case(rng):
             ops.append(["abandon", rng.randrange(ncls), rng.choice(["close", "drop", "break"])])
         elif k < 0.89:
             ops.append(["exc", rng.randrange(ncls), rng.choice(["handled_inside", "leaves_block"])])
+        elif k < 0.92:
+            ops.append(["newclass", rng.randrange(ncls), rng.choice(["dc", "hand"]), rng.random() < 0.5])
+        elif k < 0.945:
+            ops.append(["pred_raises", rng.randrange(ncls)])
+        elif k < 0.965:
+            ops.append(["toggle_caching"])
         else:
             ops.append(["query", rng.choice(["main", "main", "out"]), rng.randrange(ncls)])
     ops.append(["query", "main", 0])
@@ -260,6 +283,52 @@ def check_case(case, ctx):
                     break
                 log.append(o)
             history.append(["exc", cls.__name__, op[2]])
+        elif op[0] == "newclass":
+            # a subclass that is DEFINED (and instantiated) after queries over its ancestors were already built and evaluated
+            parent = main[op[1] % len(main)]
+            nm = f"M{len(main)}late"
+            if op[2] == "dc" and dataclasses.is_dataclass(parent):
+                cls = dataclasses.make_dataclass(nm, [(f"late{len(main)}", int, dataclasses.field(default=1))], bases=(parent,), eq=False)
+            else:
+                cls = type(nm, (parent,), {})
+            if op[3]:
+                from entity_query_language import symbol as _symbol
+                cls = _symbol(cls)
+            main.append(cls)
+            o = cls(2)
+            if type(o) is not cls:
+                fail = {"what": "CONCRETE_CONSTRUCTION_RETURNED", "type": type(o).__name__}
+                break
+            log.append(o)
+            history.append(["newclass", cls.__name__, parent.__name__, "decorated" if op[3] else "undecorated"])
+        elif op[0] == "pred_raises":
+            # a Predicate subclass whose construction raises for one binding: the exception reaches the caller of evaluate();
+            # whatever is constructed afterwards is registered as usual
+            cls = main[op[1] % len(main)]
+            want = [o for o in log if isinstance(o, cls)]
+            with symbolic_mode():
+                x = let(cls)
+                q = an(entity(x, Picky(x)))
+            try:
+                got = list(q.evaluate())
+                raised = False
+            except ValueError:
+                raised = True
+            if raised != any(getattr(o, "n", 0) == 5 for o in want):
+                fail = {"what": "PICKY_PREDICATE", "raised": raised, "instances_with_n_5": sum(1 for o in want if getattr(o, "n", 0) == 5)}
+                break
+            if not raised and Counter(map(id, got)) != Counter(map(id, want)):
+                fail = {"what": "QUERY_WITH_PREDICATE", "class": cls.__name__, "expected": len(want), "observed": len(got)}
+                break
+            o = main[0](4)
+            log.append(o)
+            history.append(["pred_raises", cls.__name__, raised])
+        elif op[0] == "toggle_caching":
+            # switching the result cache off and on again has nothing to do with the registry of instances
+            from entity_query_language.cache_data import enable_caching, disable_caching
+            disable_caching()
+            enable_caching()
+            history.append(["toggle_caching"])
         elif op[0] == "iter":
             pool = [o for o in log if isinstance(o, main[0])][:4]
             if len(pool) >= 2:
